@@ -56,7 +56,10 @@ class Rule_LT07(BaseRule):
 
         # Find the end brackets for the CTE *query* (i.e. ignore optional
         # list of CTE columns).
-        cte_end_brackets: set[RawSegment] = set()
+        # NOTE: Keep these in source order (a list, not a set). We return on
+        # the first offending bracket, and iterating a set would make which
+        # one that is depend on the hash seed of the process.
+        cte_end_brackets: list[RawSegment] = []
         for cte in (
             FunctionalContext(context)
             .segment.children(sp.is_type("common_table_expression"))
@@ -97,7 +100,7 @@ class Rule_LT07(BaseRule):
                     self.logger.debug("Skipping because on same line.")
                     continue
                 # Otherwise add to the ones to check.
-                cte_end_brackets.add(cast(RawSegment, cte_end_bracket[0]))
+                cte_end_brackets.append(cast(RawSegment, cte_end_bracket[0]))
 
         for seg in cte_end_brackets:
             contains_non_whitespace = False
